@@ -403,7 +403,10 @@ def check(prop, tier, base_seed, runs, budget_s, workers, meta, batch=None, out=
         fshape = r1["fv"][2] if r1["fv"] is not None else shape
         already_known = match_finding(findings, prop, clause, fshape) is not None
         small, hist_small, scenario_json, nruns = used, history, None, 0
-        if not already_known:
+        # sensitivity runs against scratch trees (tools/run_seeded.py) only need the verdict, not a minimised replay
+        no_shrink = os.environ.get("VERIF_NO_SHRINK") == "1" or (
+            bool(os.environ.get("VERIF_EVIDENCE_DIR")) and os.environ.get("VERIF_SHRINK") != "1")
+        if not already_known and not no_shrink:
             left = max(30.0, shrink_deadline - _clock())
             st, sj = _in_child(_shrink_job, (prop, tier, used, clause, history, left), left + 60)
             if st == "ok":
